@@ -103,7 +103,7 @@ def run(tier="quick", only_key=None):
                 def grf_ref(noise, zm=zm, so=so, mo=mo):
                     kap = alg.sqrt(sum(((2 * alg.PI / L * k) ** 2 for k in C.kvec(D)), Poly()))
                     delta = Poly.atom(("ind", "dc", D))
-                    amp = (1 - delta) * Poly.atom(("pow", kap, as_poly(-S("alpha") / 2))) + delta
+                    amp = (1 - delta) * (kap ** as_poly(-S("alpha") / 2)) + delta
                     x = C.ifft(amp * C.fft(noise, D), D)
                     return [normalize(x, grid, zm, so, mo)]
 
